@@ -35,8 +35,8 @@ pub(crate) fn convert(
     //
     // Only `userSpaceOnUse` clipPaths can be shared,
     // because `objectBoundingBox` one will be converted into user one
-    // and will become node-specific.
-    let cacheable = units == Units::UserSpaceOnUse;
+    // and will become node-specific. And so will a clipPath that links such one.
+    let cacheable = is_cacheable(node);
     if cacheable {
         if let Some(clip) = cache.clip_paths.get(node.element_id()) {
             return Some(clip.clone());
@@ -96,6 +96,21 @@ pub(crate) fn convert(
         // A clip path without children is invalid.
         None
     }
+}
+
+fn is_cacheable(node: SvgNode) -> bool {
+    // Collect all linked clipPaths. A recursive link will be rejected during conversion.
+    let mut chain = vec![node];
+    while let Some(link) = chain.last().and_then(|n| n.attribute::<SvgNode>(AId::ClipPath)) {
+        if chain.contains(&link) {
+            break;
+        }
+        chain.push(link);
+    }
+
+    chain
+        .iter()
+        .all(|n| n.attribute(AId::ClipPathUnits) != Some(Units::ObjectBoundingBox))
 }
 
 fn resolve_clip_path_transform(node: SvgNode, state: &converter::State) -> Option<Transform> {
